@@ -18,10 +18,11 @@ Tie, for every generated GIR compiled with /repo's real g-ir-compiler:
 Normalisation used by (3)/(4) — what the typelib format does not store or the GIR dialect of
 g-ir-generate spells differently — is documented at class `Api` and in ctx.assumptions.
 
-PENDING_FINDINGS: defects of /repo HEAD in gibaseinfo.c / gistructinfo.h / girwriter.c, each with an exact
-key computed by `classify` from the datum that is wrong and its wrong value; corpus/C09/hand_picked.json
-holds one minimal GIR per finding, and `repaired-compiler-constructs` / `hidden-and-shadowed` hold what
-the fix: commits repaired (must pass without suppression).
+PENDING_FINDINGS: the two defects of /repo HEAD left in girwriter.c / gistructinfo.h, each with an exact key;
+corpus/C09/hand_picked.json holds one minimal GIR per finding.  Its other cases are regressions that must
+pass without suppression: what the fix: commits repaired in the compiler (`repaired-compiler-constructs`,
+`hidden-and-shadowed`) and in the API / g-ir-generate (`union-deprecated`, `enum-with-methods`,
+`foreign-record-with-attributes`, `constant-deprecated-and-instance-transfer` for its constant).
 """
 import json
 import os
@@ -40,20 +41,6 @@ GLIB = 'http://www.gtk.org/introspection/glib/1.0'
 # Failing inputs of the UNCHANGED tree (confirmed against the real code, see the final report /
 # known_findings): each key names the call site and the class of node it concerns.
 PENDING_FINDINGS = {
-    'api:union:deprecated':
-        'g_base_info_is_deprecated() has no case for GI_INFO_TYPE_UNION: a union compiled from deprecated="1" '
-        'stores UnionBlob.deprecated=1 but the API reports FALSE (girepository/gibaseinfo.c)',
-    'generate:union:deprecated':
-        'g-ir-generate drops deprecated="1" of a union (same cause: g_base_info_is_deprecated, gibaseinfo.c)',
-    'generate:enum:methods':
-        'girwriter.c write_enum_info never writes the functions of an enumeration/bitfield '
-        '(EnumBlob.n_methods > 0 is reported by g_enum_info_get_method but absent from the GIR text)',
-    'generate:record:foreign-after-attributes':
-        'girwriter.c write_struct_info prints foreign="1" after the <attribute> children: for a foreign '
-        'record that has attributes the flag lands in character data and is lost',
-    'generate:constant:deprecated':
-        'girwriter.c write_constant_info never writes deprecated="1" of a constant (ConstantBlob.deprecated is '
-        'reported by g_base_info_is_deprecated but absent from the GIR text)',
     'generate:callable:instance-transfer':
         'girwriter.c never writes the instance parameter, so instance transfer-ownership="full" '
         '(SignatureBlob.instance_transfer_ownership) is lost in the generated GIR',
@@ -1454,25 +1441,9 @@ def classify(check, d, expected_api):
                 return t[len(tok) + 1:]
         return None
     want, got = (val(exp), val(act)) if tok else (None, None)
-    # the PENDING findings, each recognised by the exact datum that is wrong and the exact wrong value
-    if item == 'entry' and tok == 'deprecated' and kind == 11 and (want, got) == ('1', '0'):
-        return '%s:union:deprecated' % check
-    if check == 'generate':
-        if item == 'entry' and tok == 'deprecated' and kind == 9 and (want, got) == ('1', '0'):
-            return 'generate:constant:deprecated'
-        if item == 'constant' and tok == 'deprecated' and (want, got) == ('1', '0'):
-            return 'generate:constant:deprecated'
-        if kind in (5, 6):
-            if item == 'enum' and tok == 'n_methods' and got == '0':
-                return 'generate:enum:methods'
-            if re.match(r'^e\d+\.m\d+(\.|$)', path) and act is None:      # the lines of the unwritten functions
-                return 'generate:enum:methods'
-        if item == 'struct' and tok == 'foreign' and (want, got) == ('1', '0'):
-            e = expected_api.entries[int(top[1:])]
-            if e.find(q('attribute')) is not None:
-                return 'generate:record:foreign-after-attributes'
-        if item == 'callable' and tok == 'instance_transfer' and (want, got) == ('2', '0'):
-            return 'generate:callable:instance-transfer'
+    # the PENDING finding, recognised by the exact datum that is wrong and the exact wrong value
+    if check == 'generate' and item == 'callable' and tok == 'instance_transfer' and (want, got) == ('2', '0'):
+        return 'generate:callable:instance-transfer'
     missing = 'missing' if act is None else ('unexpected' if exp is None else (tok or 'shape'))
     return '%s:%s:%s:%s' % (check, kname, item, missing)
 
@@ -1678,7 +1649,7 @@ def load_corpus():
 def run(ctx):
     import concurrent.futures
     cnt = Counter()
-    ctx.prove(['gen_typelib_layout'], ['GIVerif.Props.C09'], 'GIVerif.Props.C09')
+    ctx.prove(['gen_typelib_layout', 'gen_info_switch'], ['GIVerif.Props.C09'], 'GIVerif.Props.C09')
     rng = ctx.rng
     ctx.log('proofs rebuilt and audited')
     try:
